@@ -654,6 +654,12 @@ structure Tables where
   attrs : List (Nat × String × Ex.Val)
   comps : List (Nat × Option Ex.Val)
 
+/-- `min(a, b, ...)` / `max(a, b, ...)` with two or more positional arguments: the first of the smallest / largest -/
+def minOfArgs (a : Ex.Val) (rest : List Ex.Val) : Except String Ex.Val :=
+  rest.foldlM (fun m c => do let l ← valLt c m; pure (if l then c else m)) a
+def maxOfArgs (a : Ex.Val) (rest : List Ex.Val) : Except String Ex.Val :=
+  rest.foldlM (fun m c => do let l ← valLt m c; pure (if l then c else m)) a
+
 /-- Python's `needle in hay` for strings -/
 def isSubstr (needle hay : String) : Bool :=
   let n := needle.toList
@@ -724,8 +730,8 @@ def concreteOps (t : Tables) : Ops where
     | .fn "len", [.str s] => .ok (.int s.length)
     | .fn "abs", [v] => (match toInt? v with | some i => .ok (.int i.natAbs) | none => .error "TypeError")
     | .fn "bool", [v] => .ok (.bool (truthOf v))
-    | .fn "min", [a, b] => (do let l ← valLt b a; pure (if l then b else a))
-    | .fn "max", [a, b] => (do let l ← valLt a b; pure (if l then b else a))
+    | .fn "min", a :: b :: rest => minOfArgs a (b :: rest)
+    | .fn "max", a :: b :: rest => maxOfArgs a (b :: rest)
     | .fn "sum", [.list xs] => (match xs.mapM toInt? with | some is => .ok (.int (is.foldl (· + ·) 0)) | none => .error "TypeError")
     | .fn "sum", [.tuple xs] => (match xs.mapM toInt? with | some is => .ok (.int (is.foldl (· + ·) 0)) | none => .error "TypeError")
     | .fn "len", [.tuple xs] => .ok (.int xs.length)
@@ -737,12 +743,6 @@ def concreteOps (t : Tables) : Ops where
     | .fn "set", [v] => do mkSetOf (← iterOf v)
     | .fn "str", [v] => (pyStr v).map Ex.Val.str
     | .fn "repr", [v] => (pyRepr v).map Ex.Val.str
-    | .fn "min", [a, b, c] => (do
-        let m ← (do let l ← valLt b a; pure (if l then b else a))
-        let l ← valLt c m; pure (if l then c else m))
-    | .fn "max", [a, b, c] => (do
-        let m ← (do let l ← valLt a b; pure (if l then b else a))
-        let l ← valLt m c; pure (if l then c else m))
     | _, _ => .error "NotImplemented"
   comp := fun i _ => match t.comps.find? (fun p => p.1 == i) with
     | some (_, some v) => .ok v
@@ -788,14 +788,8 @@ def concreteOps (t : Tables) : Ops where
         | .fn "len", [.list xs] => .ok (.int xs.length)
         | .fn "len", [.tuple xs] => .ok (.int xs.length)
         | .fn "len", [.str s] => .ok (.int s.length)
-        | .fn "min", [a, b] => (do let l ← valLt b a; pure (if l then b else a))
-        | .fn "max", [a, b] => (do let l ← valLt a b; pure (if l then b else a))
-        | .fn "min", [a, b, c] => (do
-            let m ← (do let l ← valLt b a; pure (if l then b else a))
-            let l ← valLt c m; pure (if l then c else m))
-        | .fn "max", [a, b, c] => (do
-            let m ← (do let l ← valLt a b; pure (if l then b else a))
-            let l ← valLt m c; pure (if l then c else m))
+        | .fn "min", a :: b :: rest => minOfArgs a (b :: rest)
+        | .fn "max", a :: b :: rest => maxOfArgs a (b :: rest)
         | .fn "sum", [v] => (do
             let xs ← iterOf v
             match xs.mapM toInt? with | some is => pure (.int (is.foldl (· + ·) 0)) | none => .error "TypeError")
@@ -824,6 +818,39 @@ structure ExprCase where
   comps : List (Nat × Option Json)
 
 def logJson (l : Log) : Json := jArr (l.map fun p => jArr [jNat p.1, valJson p.2])
+
+
+/-- the direct sub-expressions of a node -/
+def exprChildren : Expr → List Expr
+  | .const _ _ | .name _ _ => []
+  | .attr _ e _ => [e]
+  | .subscr _ e ix => [e, ix]
+  | .call _ f args => f :: args
+  | .unary _ _ e => [e]
+  | .bin _ _ l r => [l, r]
+  | .boolop _ _ es => es
+  | .compare _ left rest => left :: rest.map (·.2)
+  | .ifexp _ c t e => [c, t, e]
+  | .display _ es => es
+  | .comp _ _ first inner => first :: inner
+  | .starred _ e => [e]
+  | .coll _ _ es => es
+  | .dict _ items => items.flatMap (fun p => (match p.1 with | some k => [k] | none => []) ++ [p.2])
+  | .slice _ lo hi step => [lo, hi, step].filterMap id
+  | .callkw _ f args kws => f :: (args ++ kws.map (·.2))
+  | .fvalue _ e _ spec => e :: (match spec with | some x => [x] | none => [])
+  | .fstring _ parts => parts
+
+/-- Does a part of a comprehension fail inside the speculative harvest because the driver's concrete `Ops` do not
+implement an operation (`NotImplemented`)?  The harvest swallows every failure, so the answer of the visit itself cannot
+show it; such a case has left the fragment the driver can run and is compared against the CPython oracle only. -/
+partial def hiddenNotImpl (ops : Ops) (bi : List (String × Ex.Val)) (tbl : Tbl) : Expr → Bool
+  | .comp _ targets first inner =>
+      hiddenNotImpl ops bi tbl first ||
+      inner.any (fun x =>
+        let t' := tbl.shadow targets
+        (match (visit ops bi t' x).out with | .error ex => ex == "NotImplemented" | _ => false) || hiddenNotImpl ops bi t' x)
+  | e => (exprChildren e).any (hiddenNotImpl ops bi tbl)
 
 def run (j : Json) : Except String Json := do
   let e ← exprOfJson (← j.getObjVal? "expr")
@@ -895,6 +922,7 @@ def run (j : Json) : Except String Json := do
   let pairs := reprPairs lines condParams kw
   let pairJson (l : List (String × Ex.Val)) : Json := jArr (l.map fun p => jArr [jStr p.1, valJson p.2])
   pure (Json.mkObj [
+    ("hiddenNotImplemented", boolJson (hiddenNotImpl ops env.builtins tbl e)),
     ("lines", pairJson lines),
     ("pairs", pairJson pairs),
     ("py", match py with
